@@ -1169,6 +1169,27 @@ fn run_part2(
                 let dicts2: Vec<Dict> = moved.iter().map(|r| r.dict()).collect();
                 let resolve2 = |r: &Ref| -> Option<Dict> { moved.iter().position(|x| x.key.as_deref() == Some(r.value.as_str())).map(|i| dicts2[i].clone()) };
                 let fresh = build_ns(rows);
+                // ... and a second move: only the ODD records change, so the subjects of the even ones keep their refs
+                // while the records those refs lead to are different now
+                let moved_odd: Vec<RelRec> = rrecs
+                    .iter()
+                    .enumerate()
+                    .map(|(i, r)| if i % 2 == 1 { moved[i].clone() } else { r.clone() })
+                    .collect();
+                let dicts3: Vec<Dict> = moved_odd.iter().map(|r| r.dict()).collect();
+                let resolve3 = |r: &Ref| -> Option<Dict> { moved_odd.iter().position(|x| x.key.as_deref() == Some(r.value.as_str())).map(|i| dicts3[i].clone()) };
+                for q in rqs {
+                    let subject = &dicts3[q.subject.min(dicts3.len().saturating_sub(1))];
+                    let args = (sym(&q.rel), q.term.as_deref().map(sym), q.target.as_deref().map(Ref::from));
+                    let again = ns.has_relationship(subject, &args.0, &args.1, &args.2, &resolve3);
+                    let alone = fresh.has_relationship(subject, &args.0, &args.1, &args.2, &resolve3);
+                    if again != alone {
+                        out.fail(
+                            "history_dependent",
+                            format!("after some records changed, has_relationship(record {}, {:?}, term {:?}, target {:?}) = {again} on the namespace that answered for the old records, {alone} on a fresh one", q.subject, q.rel, q.term, q.target),
+                        );
+                    }
+                }
                 for q in rqs {
                     let subject = &dicts2[q.subject.min(dicts2.len().saturating_sub(1))];
                     let args = (sym(&q.rel), q.term.as_deref().map(sym), q.target.as_deref().map(Ref::from));
@@ -1946,6 +1967,16 @@ pub fn gen_rel(rng: &mut Rng, rows: &[RowSpec], real_db: bool) -> (Vec<RelRec>, 
         let term = if rng.chance(2, 3) && !defined.is_empty() { Some(if rng.chance(1, 8) { "neverMentioned".into() } else { rng.pick(&defined).clone() }) } else { None };
         let target = if rng.chance(3, 5) { Some(any_ref(rng)) } else { None };
         qs.push(RelQuery { subject: rng.below(ids.len() as u64) as usize, rel, term, target });
+    }
+    // two FAMILIES: one (relationship, term, target) asked of every record in turn - the walks of a family run through
+    // the same refs, so whatever is remembered about a ref between queries is consulted again
+    for _ in 0..2 {
+        let rel = rng.pick(&rel_names[..2]).to_string();
+        let term = if rng.chance(1, 2) && !defined.is_empty() { Some(rng.pick(&defined).clone()) } else { None };
+        let target = Some(rng.pick(&ids).clone());
+        for subject in 0..ids.len() {
+            qs.push(RelQuery { subject, rel: rel.clone(), term: term.clone(), target: target.clone() });
+        }
     }
     (recs, qs)
 }
